@@ -632,7 +632,12 @@ class InProtocolBase(ProtocolMixin):
         return retval
 
     def xmlattribute_from_bytes(self, cls, value):
-        return self.from_bytes(cls.type, value)
+        try:
+            return self.from_bytes(cls.type, value)
+        except (TypeError, ValueError, AttributeError, OverflowError) as e:
+            # The dict based protocols hand over whatever the document holds
+            # here. It's not necessarily a string.
+            raise ValidationError(value, "%%r: %r" % (e,))
 
     def _datetime_from_unicode(self, cls, string):
         cls_attrs = self.get_cls_attrs(cls)
